@@ -357,6 +357,7 @@ def run(ck: Check) -> None:
     _loaders(ck)
     _broad(ck)
     _tags(ck)
+    _kwargs_family(ck)
     _pairs2.run_inherit(ck)
     _pairs2.run_loaders2(ck)
     _pairs2.run_analyze(ck)
@@ -909,6 +910,68 @@ def _tags(ck: Check) -> None:
     _tag_family(ck, "call", gen_call, b_call)
 
 
+def _kwargs_scenarios():
+    """Delegate loaders that USE the keyword arguments a load carries (the `tag` that asks, a namespace key), behind choice
+    loaders: -> [(label, make_env, action)] where action(env, use_async) -> observation."""
+    import liquid
+
+    class TagAware(liquid.DictLoader):
+        def _name(self, template_name, kwargs):
+            tag = kwargs.get("tag")
+            uid = kwargs.get("uid")
+            name = f"{tag}/{template_name}" if tag and f"{tag}/{template_name}" in self.templates else template_name
+            return f"{uid}/{name}" if uid and f"{uid}/{name}" in self.templates else name
+
+        def get_source(self, env, template_name, *, context=None, **kwargs):
+            src = super().get_source(env, self._name(template_name, kwargs), context=context, **kwargs)
+            return liquid.loader.TemplateSource(src.text, template_name, src.uptodate, src.matter)
+
+        async def get_source_async(self, env, template_name, *, context=None, **kwargs):
+            src = await super().get_source_async(env, self._name(template_name, kwargs), context=context, **kwargs)
+            return liquid.loader.TemplateSource(src.text, template_name, src.uptodate, src.matter)
+
+    srcs = {"card": "[plain card {{ t }}]", "render/card": "[RENDERED card {{ t }}]", "include/card": "[INCLUDED card {{ t }}]",
+            "u1/card": "[u1 card]", "main": "{% render 'card', t: 'T' %}{% include 'card' %}"}
+    mk = {
+        "choice": lambda: liquid.ChoiceLoader([liquid.DictLoader({}), TagAware(srcs)]),
+        "nested-choice": lambda: liquid.ChoiceLoader([liquid.ChoiceLoader([TagAware(srcs)])]),
+        "caching-choice": lambda: liquid.CachingChoiceLoader([liquid.DictLoader({}), TagAware(srcs)], namespace_key="uid"),
+    }
+
+    def render_main(env, use_async):
+        t = run_async(env.get_template_async("main")) if use_async else env.get_template("main")
+        return run_async(t.render_async(t="T")) if use_async else t.render(t="T")
+
+    def load_with(kw):
+        def act(env, use_async):
+            t = run_async(env.get_template_async("card", **kw)) if use_async else env.get_template("card", **kw)
+            return t.render(t="T")
+        return act
+
+    def analyze_main(env, use_async):
+        t = env.get_template("main")
+        a = run_async(t.analyze_async()) if use_async else t.analyze()
+        return sorted(a.variables), sorted(a.tags)
+
+    actions = {"render-main": render_main, "load-tag-render": load_with({"tag": "render"}), "load-tag-include": load_with({"tag": "include"}),
+               "load-uid": load_with({"uid": "u1"}), "analyze-main": analyze_main}
+    return [(f"{ln}:{an}", lambda m=m: liquid.Environment(loader=m()), act) for ln, m in mk.items() for an, act in actions.items()]
+
+
+def _kwargs_family(ck: Check) -> None:
+    """Keyword arguments of a load (tag, namespace) reach the delegate loaders under both APIs."""
+    for label, mkenv, act in _kwargs_scenarios():
+        s = outcome(lambda: act(mkenv(), False))
+        a = outcome(lambda: act(mkenv(), True))
+        ck.note_case(("kwargs", label), nontrivial=True)
+        ck.count("kwargs.scenarios")
+        ck.traces += 2
+        if s != a:
+            ck.violation("impl-violation", f"load-kwargs:{label}",
+                         f"delegate loader that uses the load's keyword arguments behind a choice loader, scenario {label}: sync {s}, async {a}",
+                         {"type": "kwargs", "scenario": label, "sync": s, "async": a})
+
+
 def replay_tags(case) -> bool:
     env = tag_env(case["limit"], case.get("partials", {}))
     s = run_tag(env, case["template"], False)
@@ -928,7 +991,14 @@ def replay(data) -> int:
     if data.get("kind") != "impl-violation":
         print("replay names a proof/correspondence obligation:", case.get("broken", case))
         return 1
-    if typ == "path":
+    if typ == "kwargs":
+        for label, mkenv, act in _kwargs_scenarios():
+            if label == case["scenario"]:
+                s_ = outcome(lambda: act(mkenv(), False))
+                a_ = outcome(lambda: act(mkenv(), True))
+                print(label, "sync:", s_, "async:", a_)
+                bad = s_ != a_
+    elif typ == "path":
         env = make_env({})
         d = dict(COMMON)
         d.update(dict(PATH_DATA)[case["data"]])
